@@ -337,7 +337,8 @@ def r19_a(ctx):
                         except Unfoldable:
                             return isinstance(a, ast.Name) or (
                                 abstok.table_scan_helper(repo, fd.module, a) is not None
-                                and isinstance(a.args[0], ast.Name) and a.args[0].id == ch)
+                                and isinstance(a.args[0], ast.Name) and a.args[0].id == ch) \
+                                or abstok.table_scan_expr(repo, fd.module, a, ch) is not None
                     good_args = is_cat(a2)
         rr.ob(ok and good_args, {'path': p['desc'], 'yields': len(ys)})
         if not ok:
@@ -485,6 +486,13 @@ def r19_f(ctx):
             return [(bool(t.value), st)]
         if isinstance(t, ast.UnaryOp) and isinstance(t.op, ast.Not):
             return [(not b, s_) for b, s_ in cond(t.operand, st)]
+        if isinstance(t, ast.Compare) and isinstance(t.left, ast.NamedExpr) and isinstance(t.left.target, ast.Name):
+            # (tok := <value>) is None  ==  tok = <value>; tok is None
+            asg = ast.copy_location(ast.Assign([ast.Name(t.left.target.id, ast.Store())], t.left.value), t)
+            t2 = ast.copy_location(ast.Compare(ast.Name(t.left.target.id, ast.Load()), t.ops, t.comparators), t)
+            ast.fix_missing_locations(asg)
+            ast.fix_missing_locations(t2)
+            return [r for _oc, st2 in step(asg, st) for r in cond(t2, st2)]
         if isinstance(t, ast.Compare) and len(t.ops) == 1 and isinstance(t.ops[0], (ast.Is, ast.IsNot)) \
                 and isinstance(t.comparators[0], ast.Constant) and t.comparators[0].value is None:
             v = value_of(t.left, st)
@@ -499,7 +507,22 @@ def r19_f(ctx):
                              'at an empty token before the driver is exhausted'))
             v = value_of(t, st)
             return [(v[0] == 'tok', st)]
+        if isinstance(t, ast.Call) and isinstance(t.func, ast.Attribute) and t.func.attr == 'hasNext' and not t.args \
+                and not t.keywords and isinstance(t.func.value, ast.Name) and t.func.value.id in fd.params() \
+                and driver_none_when_exhausted():
+            # input left: nothing is known about the next driver result (it may still be None: only ignorable
+            # characters left); no input left: the driver would answer None
+            return [(True, st), (False, (st[0], st[1], 'none', st[3]))]
         raise AnalysisError('tokenize: test %s not decidable' % norm(t))
+
+    def driver_none_when_exhausted():
+        """next_token is `while <buffer>.hasNext(): ...` followed by nothing that returns a value"""
+        nt = repo.need_func('tokens.next_token')
+        b = strip_doc(nt.node.body)
+        p0 = nt.params()[0] if nt.params() else None
+        return bool(b) and isinstance(b[0], ast.While) and norm(b[0].test) == '%s.hasNext()' % p0 and not b[0].orelse and all(
+            not (isinstance(x, ast.Return) and x.value is not None and not (isinstance(x.value, ast.Constant) and x.value.value is None))
+            for s_ in b[1:] for x in ast.walk(s_))
 
     def run(stmts, states):
         """states: set of canonical states; returns dict outcome -> set of states (outcomes next/break/continue/return)"""
